@@ -48,10 +48,15 @@ def run(ctx):
         'int f(int n,int x,int y){ int i; for (i = 0; i < n; i++) { x = x + y; } }',
         'int f(int n,int x,int y,int z){ int i; for (i = 0; i < n; i++) { if (x < y) { x = y; } else { z = z + y; } } x = x * z; }',
         'int f(int x,int y,int z,int w){ if (x < y) { x = y * z; } else { x = w; } while (w < z) { w = x; } }',
+        # accumulator read by a second operation: the guard must appear in the bound at EVERY valid choice
+        'int f(int n,int x1,int x3,int x4,int x5){ int i; for (i = 0; i < n; i++) { x1 = x1 + x3; x5 = x1 + x4; } }',
+        'int f(int n,int a,int b,int c){ int i; for (i = 0; i < n; i++) { a = a + b; c = a * a; } }',
     ]
     import props.funcs_common as FCm
     for i in range(ctx.budget(14, 300)):
         srcs.append(FCm.shift_loop(rng, plain=(i % 2 == 0)))
+    for i in range(ctx.budget(16, 300)):
+        srcs.append(FCm.dependent_family(rng))
     for i in range(ctx.budget(220, 2500)):
         g = Gen(rng, Opts(sugar=False, consts=False, max_bin=5, max_stmts=3, nvars=rng.choice([3, 4])))
         s = g.function()
@@ -85,6 +90,49 @@ def run(ctx):
         ctx.count('valid_choices', len(bounds))
         ctx.count('paths', len(paths))
         pending.append(({'op': 'check.C03', 'ast': astwire.W(node), 'bounds': bounds, 'paths': paths}, src))
+    # the L rule's guard dependency: in `for (i = 0; i < X; i++) body` the iteration count IS the value of X.  If the
+    # value of a variable keeps growing with the count (more monomials after K2 than after K1 iterations, both
+    # beyond every transient of copies) its exact final value mentions X, so X must be listed in its bound --
+    # at EVERY valid choice.  Checked for functions whose body is one counted loop.
+    import re as _re2
+    K1, K2 = 12, 14
+    for src in [s_ for s_ in srcs if _re2.match(r'int f\([^)]*\)\{ (int \w+; )?for \((\w+) = 0; \2 < (\w+); \2\+\+\) \{', s_)][:ctx.budget(30, 400)]:
+        if ctx.drv is None:
+            break
+        m_ = _re2.match(r'int f\([^)]*\)\{ (int \w+; )?for \((\w+) = 0; \2 < (\w+); \2\+\+\) \{', src)
+        X = m_.group(3)
+        try:
+            ast = astwire.parse(src)
+            fn = astwire.funcs(ast)[0]
+            if len([b for b in fn.body.block_items if type(b).__name__ != 'Decl']) != 1:
+                continue
+            node, info = implobs.prepare(fn, True)
+            if node is None:
+                continue
+            obs, res = implobs.observe_func(node, False, None, max_mats=10 ** 6)
+        except Exception:
+            continue
+        if 'raised' in obs or obs.get('infinite') or 'valid' not in obs:
+            continue
+        vs = obs['variables']
+        w = astwire.W(node)
+        r1 = ctx.drv.call('spec.exec_sizes', ast=w, path=[K1] + [1] * 400, vars=vs)['ok']
+        r2 = ctx.drv.call('spec.exec_sizes', ast=w, path=[K2] + [1] * 400, vars=vs)['ok']
+        if not (r1.get('executed') and r2.get('executed')):
+            ctx.count('guard_dep_not_executable')
+            continue
+        growing = [v for (v, a), (_, b) in zip(r1['sizes'], r2['sizes']) if b > a]
+        ctx.case(('guard-dep', src), nontrivial=bool(growing))
+        ctx.count('guard_dependence_checked')
+        for c, _m in obs['mats']:
+            bd = implobs.bound_triples(Bound().calculate(res.relation.apply_choice(*c)), vs)
+            for entry in bd:
+                v, lists = entry[0], entry[1:]
+                if v in growing and not any(X in l for l in lists):
+                    ctx.violation({'kind': 'loop-guard-missing-from-bound'},
+                                  f'`{src}`: the value of {v} grows with the number of iterations (= {X}) but the bound '
+                                  f'of {v} at choice {c} is {lists}: {X} is not listed', {'src': src, 'choice': c, 'variable': v})
+                    break
     # for-loops whose guard is written in the body are never counted loops
     for tmpl in ['int f(int n,int x){ int i; for (i = 0; i < n; i++) { n = n + x; } }',
                  'int f(int n,int x){ int i; for (i = 0; i < n; i++) { x = x + n; } }',
